@@ -623,7 +623,11 @@ func (g *Gen) NodeOf(kind string, depth int) *Node {
 			usedGo[gn] = true
 			f := Field{Key: key, GoName: gn}
 			if r.P(30, 100) {
-				f.Tags = append(f.Tags, [2]string{"zog", "z_" + key})
+				zt := "z_" + key
+				if r.P(1, 6) {
+					zt += rng.Pick(r, []string{",omitempty", ",", ",x,y"}) // the zog tag is the key as it stands, commas included
+				}
+				f.Tags = append(f.Tags, [2]string{"zog", zt})
 			}
 			if r.P(20, 100) {
 				f.Tags = append(f.Tags, [2]string{"json", "j_" + key})
@@ -946,7 +950,7 @@ func (g *Gen) Case(id int) *Case {
 	}
 	if g.FmtModes {
 		c.Fmt = rng.Pick(r, []string{"", "", "exec:en", "exec:es", "i18n:-", "i18n:es", "i18n:en", "i18n:fr",
-			"i18nh:locale:locale=es", "i18nh:locale:lang=es", "i18nh:locale,-:lang=es,locale=en", "i18nh:-,locale:lang=en,locale=es", "i18nh:a,b,-:a=es,b=es", "i18nh:a,b:a=es,lang=es"})
+			"i18nh:locale:locale=es", "i18nh:locale:lang=es", "i18nh:locale,-:lang=es,locale=en", "i18nh:-,locale:lang=en,locale=es", "i18nh:a,b,-:a=es,b=es", "i18nh:a,b:a=es,lang=es", "i18nh:-:lang=~es", "i18nh:locale:locale=#7,lang=es"})
 	}
 	if g.Prepop {
 		c.Mode = "p"
